@@ -38,6 +38,7 @@ OUTSIDE = ["tree.*: the generated trees list every call once; the trees dds buil
 FUNCTIONS_ENCODED = ["dds._plotting._structure", "dds._plotting.build_graph", "dds._plotting.draw_graph", "dds._api._eval_new_ctx (export hook)"]
 BOUNDS = {"quick": {"tree": "root + 2 calls + 1..2 calls below each (<= 7 nodes); every combination of kept flags x named-argument flags of the calls that have an earlier sibling; shared-signature (same path / other path) and load flags in separate queries; tree.wide: root + 4 siblings, the first a kept node S, each later one of 6 kinds (kept / with arguments / calling S again), 6^3 x 4 trees", "export": ["T1", "T3", "T4", "T5", "T6", "T7", "T8", "T9"]}}
 BOUNDS["thorough"] = dict(BOUNDS["quick"], tree=BOUNDS["quick"]["tree"] + "; tree.wide5: root + 5 siblings (6^4 x 4 trees)")
+BUDGET_S = {"thorough": 1500}  # wall budget of the thorough tier: queries not started by then are reported as not run
 LAST_DETAIL = [""]
 
 
